@@ -145,6 +145,13 @@ fn lib_params<H: hbs_lms::HashChain>(params: &[Param]) -> Vec<HssParameter<H>> {
 }
 
 fn lib_seed<H: hbs_lms::HashChain>(seed: &[u8]) -> Seed<H> {
+    if seed.len() == 32 + 1 {
+        // marker byte 0xfe + 32 bytes: build the seed through `Seed::from([u8; 32])`, i.e. with
+        // whatever the caller left in the bytes beyond the hash output length
+        let mut a = [0u8; 32];
+        a.copy_from_slice(&seed[1..]);
+        return Seed::<H>::from(a);
+    }
     let mut s = Seed::<H>::default();
     s.as_mut_slice().copy_from_slice(seed);
     s
